@@ -1,16 +1,232 @@
 /-
-  spmodel — extension slot A of the line protocol (ops of one model extension;
-  chained from Driver/Ext.lean).
+  spmodel — extension slot A: package `basic` (Saltpack/Model/Basic.lean).
+
+  A basic keyring is built from a spec on both sides:
+    box spec  `pub:sec,pub:sec,...` | `-`   the ImportBoxKey calls, in order (32-byte hex each)
+    sig spec  `pub:sec,...` | `-`           the ImportSigningKey calls (32 / 64 bytes)
+
+  ops
+    bk.kid <kid>                                   kidToPublicKey through the three never-nil lookups
+    bk.lookup <boxspec> <kids>                     LookupBoxSecretKey
+    bk.all <boxspec>                               GetAllBoxSecretKeys (import order here; compared as a set)
+    bk.keyops <pub> <sec> <peer> <nonce> <msg>     SecretKey / PrecomputedSharedKey methods
+    bk.sigops <seed> <msg> <othersig>              SigningSecretKey.Sign / SigningPublicKey.Verify
+    bk.eph <src>                                   EphemeralKeyCreator{}.CreateEphemeralKey under a scripted source
+    bk.genbox <boxspec> <src>                      Keyring.GenerateBoxKey
+    bk.gensig <boxspec> <sigspec> <src>            Keyring.GenerateSigningKey
+    bk.enc.open <valid> <boxspec> <msg>            Open / NewDecryptStream with the basic keyring
+    bk.sc.open <boxspec> <resolver> <msg>          SigncryptOpen …
+    bk.sig.verify <valid> <sigspec> <msg>          Verify …
+    bk.sig.verifydetached <valid> <sigspec> <sigmsg> <msg>
+    bk.*.openp / verifyp …                         the same through the decoded-packets route
+    bk.enc.seal <ma> <mi> <sender sec|anon> <recipient pubs> <src> <pt>       Seal with basic keys (creator = basic's)
+    bk.sc.seal <signer seed|anon> <recipient pubs> <src> <pt>                 SigncryptSeal with basic.EphemeralKeyCreator
+    bk.sig.attached / bk.sig.detached <ma> <mi> <seed> <src> <msg>            Sign / SignDetached with a basic signing key
 -/
 import Driver.Util
+import Driver.More
+import Saltpack.Model.Basic
 
 open Saltpack
 
 namespace DriverExtA
 open Driver
 
+def len? (n : Nat) (b : Bytes) : Option Bytes := if b.length = n then some b else none
+
+/-- `pub:sec` pairs of exact lengths -/
+def parsePairs (np ns : Nat) (s : String) : Option (List (Bytes × Bytes)) :=
+  (splitList s).mapM (fun t =>
+    match t.splitOn ":" with
+    | [p, q] =>
+      match (ofHex p).bind (len? np), (ofHex q).bind (len? ns) with
+      | some p, some q => some (p, q)
+      | _, _ => none
+    | _ => none)
+
+def mkRing (boxspec sigspec : String) : Option Basic.Keyring := do
+  let bs ← parsePairs 32 32 boxspec
+  let ss ← parsePairs 32 64 sigspec
+  let k := bs.foldl (fun k e => k.importBoxKey e.1 e.2) Basic.Keyring.empty
+  return ss.foldl (fun k e => k.importSigningKey e.1 e.2) k
+
+def showKeys (l : List Basic.SecretKey) : String :=
+  if l.isEmpty then "-" else ",".intercalate (l.map (fun e => s!"{toHex e.pub}:{toHex e.sec}"))
+
+def showExc : Except Err Bytes → String
+  | .ok b => s!"ok:{toHex b}"
+  | .error e => s!"err:{showErr e}"
+
+def showMKIb (m : MKI) : String :=
+  s!"sender={toHex m.senderKey} anon={m.senderIsAnon} recvsec={toHex m.receiverKey} ranon={m.receiverIsAnon} named={if m.namedReceivers.isEmpty then "-" else ",".intercalate (m.namedReceivers.map toHex)} nanon={m.numAnonReceivers}"
+
+def encAnswer (r : Decrypt.Result) : String :=
+  let mki := match r.err, r.mki with
+    | none, some m => showMKIb m
+    | _, _ => "-"
+  s!"res {showOptErr r.err} rel={toHex r.released} {mki}"
+
+def scAnswer (r : Signcrypt.Result) : String :=
+  let snd := match r.err with
+    | none => (match r.sender with | some s => toHex s | none => "anon")
+    | some _ => "-"
+  s!"res {showOptErr r.err} rel={toHex r.released} sender={snd}"
+
+def sigAnswer (r : Sign.Result) : String :=
+  let snd := match r.err, r.signer with
+    | none, some s => toHex s
+    | _, _ => "-"
+  s!"res {showOptErr r.err} rel={toHex r.released} signer={snd}"
+
+def detAnswer : Except Err Bytes → String
+  | .ok k => s!"res ok signer={toHex k}"
+  | .error e => s!"res {showErr e} signer=-"
+
+def visibleRecips (s : String) : Option (List Encrypt.Recipient) :=
+  (hexList s).map (fun l => l.map (⟨·, false⟩))
+
 def handle (toks : List String) : Option String :=
   match toks with
+  | ["bk.kid", kid] =>
+    match ofHex kid with
+    | some kid =>
+      let k := Basic.Keyring.empty
+      some s!"ok lp={toHex (k.lookupBoxPublicKey kid)} ie={toHex (k.importBoxEphemeralKey kid)} lsig={toHex (k.lookupSigningPublicKey kid)}"
+    | none => none
+  | ["bk.lookup", spec, kids] =>
+    match mkRing spec "-", hexList kids with
+    | some k, some kids =>
+      match k.lookupBoxSecretKey kids with
+      | (i, some sk) => some s!"ok {i} pub={toHex sk.getPublicKey} sec={toHex sk.sec}"
+      | (i, none) => some s!"ok {i} nil"
+    | _, _ => none
+  | ["bk.all", spec] =>
+    match mkRing spec "-" with
+    | some k => some s!"ok all={showKeys k.getAllBoxSecretKeys}"
+    | none => none
+  | ["bk.keyops", pub, sec, peer, nonce, msg] =>
+    match (ofHex pub).bind (len? 32), (ofHex sec).bind (len? 32), (ofHex peer).bind (len? 32),
+        (ofHex nonce).bind (len? 24), ofHex msg with
+    | some pub, some sec, some peer, some nonce, some msg =>
+      let k := Basic.newSecretKey pub sec
+      let bx := k.box RealPrims peer nonce msg
+      let pre := k.precompute RealPrims peer
+      let sbx := Basic.PrecomputedSharedKey.box RealPrims pre nonce msg
+      some s!"ok pub={toHex k.getPublicKey} kid={toHex (Basic.PublicKey.toKID k.getPublicKey)} hide={Basic.PublicKey.hideIdentity k.getPublicKey} box={toHex bx} rt={showExc (k.unbox RealPrims peer nonce bx)} unbox={showExc (k.unbox RealPrims peer nonce msg)} pre={toHex pre} sbox={toHex sbx} srt={showExc (Basic.PrecomputedSharedKey.unbox RealPrims pre nonce sbx)} sunbox={showExc (Basic.PrecomputedSharedKey.unbox RealPrims pre nonce msg)}"
+    | _, _, _, _, _ => none
+  | ["bk.sigops", seed, msg, other] =>
+    match (ofHex seed).bind (len? 32), ofHex msg, ofHex other with
+    | some seed, some msg, some other =>
+      let pub := RealPrims.sigPub seed
+      let k := Basic.newSigningSecretKey pub (seed ++ pub)
+      match k.sign RealPrims msg with
+      | .error e => some s!"err {showErr e}"
+      | .ok sg =>
+        let v (r : Except Err Unit) : String := match r with | .ok () => "ok" | .error e => showErr e
+        some s!"ok pub={toHex k.getPublicKey} sig={toHex sg} verify={v (Basic.SigningPublicKey.verify RealPrims pub msg sg)} verify2={v (Basic.SigningPublicKey.verify RealPrims pub msg other)}"
+    | _, _, _ => none
+  | ["bk.eph", src] =>
+    match mkSource src with
+    | some src =>
+      match Basic.createEphemeralKey RealPrims src with
+      | .ok (sk, rest) => some s!"ok pub={toHex sk.pub} sec={toHex sk.sec} reads={src.length - rest.length}"
+      | .error e => some s!"err {showErr e}"
+    | none => none
+  | ["bk.genbox", spec, src] =>
+    match mkRing spec "-", mkSource src with
+    | some k, some src =>
+      match k.generateBoxKey RealPrims src with
+      | .ok (sk, k', rest) =>
+        some s!"ok pub={toHex sk.pub} sec={toHex sk.sec} reads={src.length - rest.length} all={showKeys k'.getAllBoxSecretKeys}"
+      | .error e => some s!"err {showErr e} all={showKeys k.getAllBoxSecretKeys}"
+    | _, _ => none
+  | ["bk.gensig", spec, sigspec, src] =>
+    match mkRing spec sigspec, mkSource src with
+    | some k, some src =>
+      match k.generateSigningKey RealPrims src with
+      | .ok (sk, k', rest) =>
+        some s!"ok pub={toHex sk.pub} sec={toHex sk.sec} reads={src.length - rest.length} all={showKeys k'.getAllBoxSecretKeys}"
+      | .error e => some s!"err {showErr e} all={showKeys k.getAllBoxSecretKeys}"
+    | _, _ => none
+  -- receivers with the basic keyring -------------------------------------------------
+  | ["bk.enc.open", valid, spec, msg] =>
+    match mkValidator valid, mkRing spec "-", ofHex msg with
+    | some valid, some k, some msg =>
+      match Wire.splitEnc msg with
+      | .unmodelled w => some s!"unmodelled {w.replace " " "_"}"
+      | .ok (hr, ps) => some (encAnswer (Decrypt.openStream RealPrims valid k.ring hr ps))
+    | _, _, _ => none
+  | ["bk.enc.openp", valid, spec, hdr, hf, items, tail] =>
+    match mkValidator valid, mkRing spec "-", Driver2.parseHdr Driver2.parseEncHF hdr hf,
+        Driver2.parseItems Driver2.parseEncItem items, Driver2.parseTail tail with
+    | some valid, some k, some hr, some its, some tl =>
+      some (encAnswer (Decrypt.openStream RealPrims valid k.ring hr ⟨its, tl⟩))
+    | _, _, _, _, _ => none
+  | ["bk.sc.open", spec, resolver, msg] =>
+    match mkRing spec "-", mkResolver resolver, ofHex msg with
+    | some k, some res, some msg =>
+      match Wire.splitSigncrypt msg with
+      | .unmodelled w => some s!"unmodelled {w.replace " " "_"}"
+      | .ok (hr, ps) => some (scAnswer (Signcrypt.openStream RealPrims k.ring res hr ps))
+    | _, _, _ => none
+  | ["bk.sc.openp", spec, resolver, hdr, hf, items, tail] =>
+    match mkRing spec "-", mkResolver resolver, Driver2.parseHdr Driver2.parseEncHF hdr hf,
+        Driver2.parseItems Driver2.parseScItem items, Driver2.parseTail tail with
+    | some k, some res, some hr, some its, some tl =>
+      some (scAnswer (Signcrypt.openStream RealPrims k.ring res hr ⟨its, tl⟩))
+    | _, _, _, _, _ => none
+  | ["bk.sig.verify", valid, sigspec, msg] =>
+    match mkValidator valid, mkRing "-" sigspec, ofHex msg with
+    | some valid, some k, some msg =>
+      match Wire.splitSig msg with
+      | .unmodelled w => some s!"unmodelled {w.replace " " "_"}"
+      | .ok (hr, ps) => some (sigAnswer (Sign.verifyStream RealPrims valid k.ring hr ps))
+    | _, _, _ => none
+  | ["bk.sig.verifyp", valid, sigspec, hdr, hf, items, tail] =>
+    match mkValidator valid, mkRing "-" sigspec, Driver2.parseHdr Driver2.parseSigHF hdr hf,
+        Driver2.parseItems Driver2.parseSigItem items, Driver2.parseTail tail with
+    | some valid, some k, some hr, some its, some tl =>
+      some (sigAnswer (Sign.verifyStream RealPrims valid k.ring hr ⟨its, tl⟩))
+    | _, _, _, _, _ => none
+  | ["bk.sig.verifydetached", valid, sigspec, sigmsg, msg] =>
+    match mkValidator valid, mkRing "-" sigspec, ofHex sigmsg, ofHex msg with
+    | some valid, some k, some sigmsg, some msg =>
+      match Wire.splitDetached sigmsg with
+      | .unmodelled w => some s!"unmodelled {w.replace " " "_"}"
+      | .ok (hr, sr) => some (detAnswer (Sign.verifyDetached RealPrims valid k.ring hr sr msg))
+    | _, _, _, _ => none
+  | ["bk.sig.verifydetachedp", valid, sigspec, hdr, hf, sg, msg] =>
+    match mkValidator valid, mkRing "-" sigspec, Driver2.parseHdr Driver2.parseSigHF hdr hf, ofHex msg with
+    | some valid, some k, some hr, some msg =>
+      let sr : Option Sign.SigRead :=
+        if sg = "E" then some (.none .unexpectedEOF) else if sg = "R" then some (.none .decodeError)
+        else match sg.splitOn ":" with
+          | ["S", h] => (ofHex h).map .sig
+          | _ => none
+      sr.map (fun sr => detAnswer (Sign.verifyDetached RealPrims valid k.ring hr sr msg))
+    | _, _, _, _ => none
+  -- senders with basic keys (the ephemeral key comes from basic.EphemeralKeyCreator = `.fromRand`,
+  -- Proofs/Basic.lean `sealRand_fromRand_is_basic_creator`) --------------------------
+  | ["bk.enc.seal", ma, mi, sender, recips, src, pt] =>
+    match ma.toInt?, mi.toInt?, mkSender sender, visibleRecips recips, mkSource src, ofHex pt with
+    | some ma, some mi, some sender, some rs, some src, some pt =>
+      some (showSealRand (Encrypt.sealRand RealPrims blockSize ⟨ma, mi⟩ sender rs .fromRand src pt) src.length)
+    | _, _, _, _, _, _ => none
+  | ["bk.sc.seal", sender, recips, src, pt] =>
+    match mkSender sender, hexList recips, mkSource src, ofHex pt with
+    | some sender, some rs, some src, some pt =>
+      some (showSealRand (Signcrypt.sealRand RealPrims blockSize sender (rs.map .box) [] .fromRand src pt) src.length)
+    | _, _, _, _ => none
+  | ["bk.sig.attached", ma, mi, seed, src, msg] =>
+    match ma.toInt?, mi.toInt?, (ofHex seed).bind (len? 32), mkSource src, ofHex msg with
+    | some ma, some mi, some seed, some src, some msg =>
+      some (showSealRand (Sign.attachedRand RealPrims sigBlockSize ⟨ma, mi⟩ seed src msg) src.length)
+    | _, _, _, _, _ => none
+  | ["bk.sig.detached", ma, mi, seed, src, msg] =>
+    match ma.toInt?, mi.toInt?, (ofHex seed).bind (len? 32), mkSource src, ofHex msg with
+    | some ma, some mi, some seed, some src, some msg =>
+      some (showSealRand (Sign.detachedRand RealPrims ⟨ma, mi⟩ seed src msg) src.length)
+    | _, _, _, _, _ => none
   | _ => none
 
 end DriverExtA
